@@ -117,6 +117,27 @@ def control_flow_shapes(size, depth=3, maxlen=3, loops=('while', 'until'), err=T
     return out
 
 
+def multi_block_shapes(size, depth=3, maxlen=3):
+    """every control-flow shape of total size 2..=size with a blank line (= a new top-level block) inserted at one or at every top-level boundary"""
+    global LOOPS, ERR
+    LOOPS, ERR = ('while', 'until'), True
+    out = []
+    for n in range(2, size + 1):
+        for b in _blocks(n, depth, False, maxlen):
+            if len(b) < 2: continue
+            cuts = [(i,) for i in range(1, len(b))] + ([tuple(range(1, len(b)))] if len(b) > 2 else [])
+            for cut in cuts:
+                r = _R()
+                try:
+                    for i, st in enumerate(b):
+                        if i in cut: r.lines.append('')
+                        r.stmt(st, None)
+                except OverflowError: continue
+                r.lines.append(''); r.lines.append(r.marker())
+                out.append(('\n'.join(r.lines) + '\n', r.spec))
+    return out
+
+
 def chunks(xs, n):
     return [xs[i:i + n] for i in range(0, len(xs), n)]
 
@@ -240,7 +261,8 @@ OPERAND_PRELUDE = {'array': ['Rock Y with 9003, "§2"']}
 FORMS_1 = ['say X', 'say not X', 'say 0 minus X', 'Build X up', 'Knock X down, down', 'Turn up X', 'Turn down X', 'Turn round X', 'Cut X', 'Cut X into Z', 'Join X', 'Join X into Z',
            'Cast X', 'Cast X into Z', 'Rock X', 'Rock X like a lovestruck ladykiller', 'Roll X', 'Roll X into Z', 'say roll X', 'X taking 1', 'say X taking 1, 2', 'If X\nsay 1\n', 'While X\nsay 1\nbreak\n',
            'Until X\nsay 1\nbreak\n', 'Listen to X', 'give back X', 'X is a rockstar', 'X says hello', 'say X at 0 at 1', 'Let X at 0 at 1 be 2', 'Put X into X', 'Let X be X', 'say X is X', 'say X plus X',
-           'Put X into W\nBuild W up\nsay W\nsay X', 'F takes P\nBuild P up\nRock P with 1\ngive back P\n\nsay F taking X\nsay X', 'say it', 'Let it at 1 be 1', 'Roll it', 'Rock it with 1']
+           'Put X into W\nBuild W up\nsay W\nsay X', 'F takes P\nBuild P up\nRock P with 1\ngive back P\n\nsay F taking X\nsay X', 'say it', 'Let it at 1 be 1', 'Roll it', 'Rock it with 1',
+           'Let X be with X', 'Let X be of X', 'Let X be without X', 'Let X be over X', 'Let X be with X, 1', 'Let X be with 1, X', 'Put X plus X into X', 'Let X at 0 be X', 'Let X be X at 0', 'Rock X with X', 'Build X up, up\nKnock X down']
 FORMS_2 = ['say X at {Y}', 'say {Y} at X', 'say X plus {Y}', 'say {Y} plus X', 'say X minus {Y}', 'say {Y} minus X', 'say X times {Y}', 'say {Y} times X', 'say X over {Y}', 'say {Y} over X',
            'say X is {Y}', 'say X is not {Y}', 'say X is greater than {Y}', 'say {Y} is as low as X', 'say X and {Y}', 'say X or {Y}', 'say X nor {Y}', 'say X plus {Y}, {Y}', 'say X times {Y}, X',
            'Let X at {Y} be 1', 'Let Z at X be {Y}', 'Put {Y} into X', 'Let X be with {Y}', 'Let X be minus {Y}', 'Let X be times {Y}', 'Let X be over {Y}', 'Cut X with {Y}', 'Cut {Y} into Z with X',
@@ -263,11 +285,11 @@ def kind_shapes(operands=('number', 'string', 'array', 'null')):
     out = []
     for kind, pre in KIND_PRELUDE.items():
         for f in FORMS_1:
-            t, sp = _finish(pre + [f, 'say "end"'])
+            t, sp = _finish(pre + [f, 'say X', 'say "end"'])
             out.append((t, sp))
         for f in FORMS_2:
             for ok in operands:
-                t, sp = _finish(pre + OPERAND_PRELUDE.get(ok, []) + [f.replace('{Y}', OPERAND[ok]), 'say "end"'])
+                t, sp = _finish(pre + OPERAND_PRELUDE.get(ok, []) + [f.replace('{Y}', OPERAND[ok]), 'say X', 'say "end"'])
                 out.append((t, sp))
     return out
 
